@@ -205,6 +205,10 @@ func skolemise(goal *sexp, counter *int) (*sexp, [][2]string) {
 // occurring universal quantifiers over Int by instances at the given terms.
 // The returned formulas are consequences of f.
 func instances(f *sexp, terms []*sexp, limit *int) []*sexp {
+	return instancesSorted(f, map[string][]*sexp{"Int": terms}, limit)
+}
+
+func instancesSorted(f *sexp, bySort map[string][]*sexp, limit *int) []*sexp {
 	// find the first positive ∀ over Int variables; instantiate it with every
 	// term combination; recurse on the results (nested quantifiers)
 	var out []*sexp
@@ -219,14 +223,15 @@ func instances(f *sexp, terms []*sexp, limit *int) []*sexp {
 			return
 		}
 		vars := q.list[1].list
-		// all Int?
+		// candidates for every variable's sort?
 		for _, b := range vars {
-			if b.list[1].String() != "Int" {
+			if len(bySort[b.list[1].String()]) == 0 {
 				return
 			}
 		}
 		combos := [][]*sexp{{}}
-		for range vars {
+		for _, vb := range vars {
+			terms := bySort[vb.list[1].String()]
 			var next [][]*sexp
 			for _, c := range combos {
 				for _, t := range terms {
@@ -276,6 +281,10 @@ func findPositiveForall(f *sexp, pos bool) ([]int, *sexp) {
 		}
 		return nil, nil
 	case "exists":
+		// an existential in negative position is a universal
+		if !pos && len(f.list) == 3 {
+			return []int{}, f
+		}
 		return nil, nil
 	case "assert":
 		if len(f.list) == 2 {
@@ -385,6 +394,27 @@ func groundSpecApps(f *sexp, intFuncs map[string]bool, bound map[string]bool, ou
 	return ground
 }
 
+// arithAtoms collects symbolic constants compared arithmetically in the goal.
+func arithAtoms(f *sexp, bound map[string]bool, out map[string]*sexp) {
+	if f.list == nil {
+		return
+	}
+	h := f.head()
+	if h == "forall" || h == "exists" || h == "let" {
+		return
+	}
+	if h == "<" || h == "<=" || h == ">" || h == ">=" {
+		for _, c := range f.list[1:] {
+			if c.list == nil && !isNumeral(c) && !bound[c.atom] && c.atom != "" && !strings.HasPrefix(c.atom, "sk!") {
+				out[c.atom] = c
+			}
+		}
+	}
+	for _, c := range f.list {
+		arithAtoms(c, bound, out)
+	}
+}
+
 func isGround(f *sexp, bound map[string]bool) bool {
 	if f.list == nil {
 		return !bound[f.atom]
@@ -410,31 +440,114 @@ func isNumeral(f *sexp) bool {
 
 // augment rewrites (lines, guard, goal) into an equivalent query with a
 // skolemised goal and extra ground instances.
+// skolemiseHyp eliminates positively occurring existential quantifiers of a hypothesis
+// that are not under a universal quantifier (existential elimination).
+func skolemiseHyp(f *sexp, pos bool, counter *int, consts *[][2]string) (*sexp, bool) {
+	if f.list == nil {
+		return f, false
+	}
+	switch f.head() {
+	case "exists":
+		if pos && len(f.list) == 3 {
+			m := map[string]*sexp{}
+			for _, b := range f.list[1].list {
+				*counter++
+				name := fmt.Sprintf("hk!%s!%d", strings.ReplaceAll(b.list[0].atom, "!", "_"), *counter)
+				*consts = append(*consts, [2]string{name, b.list[1].String()})
+				m[b.list[0].atom] = &sexp{atom: name}
+			}
+			body, _ := skolemiseHyp(f.list[2].subst(m), pos, counter, consts)
+			return body, true
+		}
+		return f, false
+	case "forall":
+		return f, false
+	case "assert":
+		if len(f.list) == 2 {
+			b, ch := skolemiseHyp(f.list[1], pos, counter, consts)
+			return &sexp{list: []*sexp{f.list[0], b}}, ch
+		}
+	case "and":
+		changed := false
+		n := &sexp{list: []*sexp{f.list[0]}}
+		for _, c := range f.list[1:] {
+			b, ch := skolemiseHyp(c, pos, counter, consts)
+			changed = changed || ch
+			n.list = append(n.list, b)
+		}
+		return n, changed
+	case "=>":
+		if len(f.list) == 3 {
+			// antecedent kept as is: eliminating under an implication is sound because the
+			// fresh constants are unconstrained when the antecedent is false
+			b, ch := skolemiseHyp(f.list[2], pos, counter, consts)
+			return &sexp{list: []*sexp{f.list[0], f.list[1], b}}, ch
+		}
+	}
+	return f, false
+}
+
 func augment(lines []string, guard, goal string, intFuncs map[string]bool) (extraDecls []string, extra []string, newGoal string) {
 	g, ok := parseSexp(goal)
 	if !ok {
 		return nil, nil, goal
 	}
 	counter := 0
+	var hypConsts [][2]string
+	var skolemised []*sexp
+	for i, l := range lines {
+		if !strings.HasPrefix(l, "(assert ") || !strings.Contains(l, "(exists ") {
+			continue
+		}
+		if f, ok := parseSexp(l); ok {
+			if nf, ch := skolemiseHyp(f, true, &counter, &hypConsts); ch {
+				lines[i] = nf.String()
+				skolemised = append(skolemised, nf)
+			}
+		}
+	}
 	sk, consts := skolemise(g, &counter)
 	newGoal = sk.String()
 	var terms []*sexp
+	other := map[string][]*sexp{}
+	for _, c := range hypConsts {
+		extraDecls = append(extraDecls, fmt.Sprintf("(declare-const %s %s)", c[0], c[1]))
+		if c[1] != "Int" {
+			other[c[1]] = append(other[c[1]], &sexp{atom: c[0]})
+		}
+	}
 	for _, c := range consts {
 		extraDecls = append(extraDecls, fmt.Sprintf("(declare-const %s %s)", c[0], c[1]))
 		if c[1] == "Int" {
 			terms = append(terms, &sexp{atom: c[0]})
+		} else {
+			other[c[1]] = append(other[c[1]], &sexp{atom: c[0]})
 		}
 	}
 	// ground opaque applications in the goal are instantiation candidates too
 	apps := map[string]*sexp{}
 	groundSpecApps(sk, intFuncs, map[string]bool{}, apps)
+	arithAtoms(sk, map[string]bool{}, apps)
+	for _, h := range skolemised {
+		hApps := map[string]*sexp{}
+		groundSpecApps(h, intFuncs, map[string]bool{}, hApps)
+		for k, v := range hApps {
+			// only terms that mention a hypothesis skolem constant are witnesses worth trying
+			if strings.Contains(k, "hk!") {
+				apps[k] = v
+			}
+		}
+	}
 	for _, k := range sortedSexpKeys(apps) {
 		terms = append(terms, apps[k])
 	}
-	if len(terms) == 0 {
+	if len(terms) == 0 && len(other) == 0 {
 		return extraDecls, nil, newGoal
 	}
 	var quantified []*sexp
+	if strings.Contains(newGoal, "(exists ") || strings.Contains(newGoal, "(forall ") {
+		quantified = append(quantified, &sexp{list: []*sexp{{atom: "assert"}, {list: []*sexp{{atom: "not"}, sk}}}})
+	}
 	for _, l := range lines {
 		if !strings.HasPrefix(l, "(assert ") || !strings.Contains(l, "(forall ") {
 			continue
@@ -450,8 +563,12 @@ func augment(lines []string, guard, goal string, intFuncs map[string]bool) (extr
 			terms = terms[:8]
 		}
 		newApps := map[string]*sexp{}
+		bySort := map[string][]*sexp{"Int": terms}
+		for k, v := range other {
+			bySort[k] = v
+		}
 		for _, f := range quantified {
-			for _, inst := range instances(f, terms, &limit) {
+			for _, inst := range instancesSorted(f, bySort, &limit) {
 				s := inst.String()
 				if !seen[s] {
 					seen[s] = true
